@@ -187,11 +187,15 @@ inductive PipeErr (ε : Type) where
   | plugin (request : Json) (e : ε)
   /-- `package_invariant_error`: the state is not an array of non-arrays / objects -/
   | invariant (request : Json)
+  /-- `package_error(query, UnexpectedQueryStructure("query is not a JSON object"))`: the guard of
+  `apply_input_plugins` -/
+  | notObject (request : Json)
   deriving Repr
 
 def PipeErr.request {ε : Type} : PipeErr ε → Json
   | .plugin r _ => r
   | .invariant r => r
+  | .notObject r => r
 
 /-- `json![{"error": "unable to display query"}]`, the request shown when the state was consumed -/
 def noRequest : Json := .obj [("error", .str "unable to display query")]
@@ -242,12 +246,15 @@ def applyOps {ε : Type} : List (Json → Except ε Json) → Json → Except (P
     | .ok s => applyOps ops s
     | .error e => .error e
 
-/-- `apply_input_plugins(query, plugins)` -/
+/-- `apply_input_plugins(query, plugins)`: a query that is not a JSON object is answered with an error
+response that echoes it, before any plugin runs -/
 def applyInputPlugins {ε : Type} (plugins : List (Json → Except ε Json)) (query : Json) :
     Except (PipeErr ε) (List Json) :=
-  match applyOps plugins (.arr [query]) with
-  | .ok s => jsonArrayFlatten s
-  | .error e => .error e
+  if query.isObject then
+    match applyOps plugins (.arr [query]) with
+    | .ok s => jsonArrayFlatten s
+    | .error e => .error e
+  else .error (.notObject query)
 
 end GridSearch
 end Compass
